@@ -30,6 +30,13 @@ THEOREMS = [
     "Verif.C10.peaks_above_baseline",
     "Verif.C10.peaks_ordered",
     "Verif.C10.peaks_frequency_edges",
+    "Verif.C10.psd_scale",
+    "Verif.C10.psd_shift_invariant",
+    "Verif.C10.frequency_axis",
+    "Verif.C10.psd_lengths",
+    "Verif.C10.bin_width",
+    "Verif.C10.windowed_is_mean",
+    "Verif.C10.psd_bin0",
 ]
 RULE = "filled in below"
 TRUSTED = [
